@@ -79,6 +79,7 @@ type cyPostTarget struct {
 	T      uint64 `json:"t"`
 	State  string `json:"state"`
 	Series int64  `json:"series"`
+	Total  int64  `json:"total"`
 }
 
 type cyPost struct {
@@ -214,7 +215,7 @@ func (s *cyShardRT) postReq(url string, req interface{}, ret interface{}) error 
 		p := cyPost{Sent: true, OK: !s.in.PostFail, Targets: []cyPostTarget{}}
 		for _, ts := range r.Targets {
 			for _, t := range ts {
-				p.Targets = append(p.Targets, cyPostTarget{T: t.Hash, State: t.TargetState, Series: t.Series})
+				p.Targets = append(p.Targets, cyPostTarget{T: t.Hash, State: t.TargetState, Series: t.Series, Total: t.TotalSeries})
 			}
 		}
 		s.post = p
